@@ -193,6 +193,9 @@ func ParseVal(s string) (*Val, error) {
 
 func le32(n uint32) []byte { b := make([]byte, 4); binary.LittleEndian.PutUint32(b, n); return b }
 
+// Le32: four bytes little-endian.
+func Le32(n uint32) []byte { return le32(n) }
+
 // EncBytes: TL byte string (length prefix, data, zero padding to a multiple of four).
 func EncBytes(data []byte) ([]byte, error) {
 	var b []byte
